@@ -8,7 +8,9 @@
 (* Schemas (records with a tag t):                                         *)
 (*   U(n)            uintN of n <= 3 bytes, big-endian (RFC 8446 3.3)      *)
 (*   ULit(n, c)      a uintN whose only legal value is c (message type,    *)
-(*                   extension type, select() discriminant)                *)
+(*                   extension type, select() discriminant with one arm);  *)
+(*                   like <a..b> it is a constraint on the value, not on   *)
+(*                   the framing                                           *)
 (*   UBig(n)         uintN, n >= 4 bytes; the abstract value is the n-byte *)
 (*                   big-endian string (TLC integers are 32 bit)           *)
 (*   Fixed(n)        opaque x[n]            (3.4 fixed-length vector)      *)
@@ -32,7 +34,7 @@
 (* Dec has two modes.  strict = FALSE checks framing only: every length    *)
 (* prefix must lie inside the enclosing block, a block must be consumed    *)
 (* exactly, a vector of fixed-size elements must hold a whole number of    *)
-(* them, literals must match.  strict = TRUE additionally enforces the     *)
+(* them.  strict = TRUE additionally enforces literals and the              *)
 (* floor and ceiling <a..b> of every vector (RFC 8446 6.2 decode_error:    *)
 (* "some field was out of the specified range").                           *)
 (* Likewise Fits(s, v, FALSE) is "representable": every integer fits its   *)
@@ -79,7 +81,7 @@ EncMany(e, vs) ==
   ELSE Cat([i \in 1..Len(vs) |-> Enc(e, vs[i])])
 Enc(s, v) ==
   CASE s.t = "U"      -> BE(v, s.n)
-    [] s.t = "ULit"   -> BE(s.c, s.n)
+    [] s.t = "ULit"   -> BE(v, s.n)
     [] s.t = "UBig"   -> v
     [] s.t = "Fixed"  -> v
     [] s.t = "Rest"   -> v
@@ -95,7 +97,7 @@ AllIn(seq, P(_)) == \A i \in 1..Len(seq) : P(seq[i])
 RECURSIVE Fits(_, _, _)
 Fits(s, v, strict) ==
   CASE s.t = "U"      -> v >= 0 /\ v < Pow256(s.n)
-    [] s.t = "ULit"   -> v = s.c
+    [] s.t = "ULit"   -> v >= 0 /\ v < Pow256(s.n) /\ (strict => v = s.c)
     [] s.t = "UBig"   -> Len(v) = s.n
     [] s.t = "Fixed"  -> strict => Len(v) = s.n
     [] s.t = "Rest"   -> TRUE
@@ -137,7 +139,8 @@ DStruct(fs, b, lo, hi, strict) ==
 D(s, b, lo, hi, strict) ==
   CASE s.t = "U"      -> IF lo + s.n - 1 > hi THEN Err ELSE Ok(BEVal(b, lo, s.n), lo + s.n)
     [] s.t = "ULit"   -> IF lo + s.n - 1 > hi THEN Err
-                         ELSE IF BEVal(b, lo, s.n) # s.c THEN Err ELSE Ok(s.c, lo + s.n)
+                         ELSE IF strict /\ BEVal(b, lo, s.n) # s.c THEN Err
+                         ELSE Ok(BEVal(b, lo, s.n), lo + s.n)
     [] s.t = "UBig"   -> IF lo + s.n - 1 > hi THEN Err ELSE Ok(SubSeq(b, lo, lo + s.n - 1), lo + s.n)
     [] s.t = "Fixed"  -> IF lo + s.n - 1 > hi THEN Err ELSE Ok(SubSeq(b, lo, lo + s.n - 1), lo + s.n)
     [] s.t = "Rest"   -> Ok(SubSeq(b, lo, hi), hi + 1)
